@@ -10,7 +10,7 @@ import json
 import random
 import sys
 
-CLASSES = ["mix", "reuse", "disable", "post", "timers", "idle", "life", "faults", "fds", "ready", "pings", "chans"]
+CLASSES = ["mix", "reuse", "disable", "post", "timers", "idle", "life", "faults", "fds", "ready", "pings", "chans", "streams"]
 
 
 def nch(d):
@@ -52,8 +52,10 @@ class G:
         r = self.r
         w = {"mix": [3, 2, 3, 3], "reuse": [3, 1, 2, 4], "disable": [3, 2, 3, 3], "post": [1, 0, 1, 6],
              "timers": [2, 0, 6, 1], "idle": [3, 1, 1, 1], "life": [2, 0, 0, 6], "faults": [2, 1, 2, 5],
-             "fds": [2, 1, 0, 6], "ready": [2, 2, 2, 5], "pings": [8, 0, 1, 1], "chans": [1, 8, 1, 1]}[self.cls]
+             "fds": [2, 1, 0, 6], "ready": [2, 2, 2, 5], "pings": [8, 0, 1, 1], "chans": [1, 8, 1, 1], "streams": [2, 1, 1, 1]}[self.cls]
         kind = r.choices(["ping", "chan", "timer", "comp"], weights=w)[0]
+        if self.cls == "streams" and r.random() < 0.6:
+            kind = "stream"
         d = {"s": s, "kind": kind}
         if kind == "chan" and r.random() < 0.3:
             d["cap"] = r.choice([1, 2, 3])
@@ -95,6 +97,11 @@ class G:
             return {"op": "send", "s": d["s"], "m": self.msg}
         if d["kind"] == "comp":
             return {"op": "wr", "s": d["s"], "c": r.randrange(nch(d))}
+        if d["kind"] == "stream":
+            if r.random() < 0.15:
+                return {"op": "end_stream", "s": d["s"]}
+            self.msg += 1
+            return {"op": "push", "s": d["s"], "m": self.msg}
         return None
 
     def decl(self, s):
@@ -167,7 +174,7 @@ class G:
     def mk_programs(self):
         r = self.r
         dens = {"mix": 0.5, "reuse": 0.7, "disable": 0.6, "post": 0.5, "timers": 0.5, "idle": 0.6,
-                "life": 0.3, "faults": 0.3, "fds": 0.2, "ready": 0.4, "pings": 0.6, "chans": 0.6}[self.cls]
+                "life": 0.3, "faults": 0.3, "fds": 0.2, "ready": 0.4, "pings": 0.6, "chans": 0.6, "streams": 0.5}[self.cls]
         for d in self.srcs:
             s = d["s"]
             progs = []
@@ -295,6 +302,11 @@ class G:
             return
         if x < 0.90 and self.dead_tokens:
             self.steps.append({"op": r.choice(["remove", "disable", "update", "enable"]), "t": r.choice(self.dead_tokens)})
+            return
+        if x < 0.915 and self.ntok > 1:
+            # any token issued so far: sources also die through post actions (TimeoutAction::Drop, Remove, Closed)
+            # and their tokens must be dead afterwards, whoever occupies the slot now
+            self.steps.append({"op": r.choice(["disable", "update", "enable", "remove"]), "t": r.randrange(self.ntok)})
             return
         if x < 0.94 or self.cls == "idle":
             if r.random() < 0.65 or not self.idles_pending:
@@ -587,6 +599,88 @@ def pat_defer(rnd, sid):
     return {"id": sid, "tick_us": 2000, "sources": srcs, "progs": progs, "steps": steps}
 
 
+def pat_timers(rnd, sid):
+    """Timer armings: unrepresentable / past / equal deadlines, set_deadline + update, disable / enable,
+    reschedules from the callback; another source fails or interferes in the same dispatch."""
+    r = rnd
+    n = r.choice([2, 3, 3])
+    srcs = []
+    for i in range(n):
+        d = {"s": i + 1, "kind": "timer", "held": 1}
+        x = r.random()
+        if x < 0.3:
+            pass                      # unrepresentable: never armed until a deadline is set
+        else:
+            d["dl"] = r.choice([-1, 0, 1, 1, 2, 2, 3])
+        srcs.append(d)
+    other = None
+    if r.random() < 0.6:
+        other = {"s": n + 1, "kind": r.choice(["ping", "comp"])}
+        if other["kind"] == "comp":
+            other["children"] = [{"interest": "r", "mode": "level"}]
+        srcs.append(other)
+    steps = [{"op": "insert", "s": d["s"]} for d in srcs]
+    tick = 0
+    for rnd_i in range(r.choice([3, 4, 5])):
+        for d in srcs[:n]:
+            x = r.random()
+            if x < 0.25:
+                steps += [{"op": "set_deadline", "s": d["s"], "d": tick + r.choice([0, 1, 1, 2])}, {"op": "update", "ts": d["s"]}]
+            elif x < 0.35:
+                steps += [{"op": "disable", "ts": d["s"]}]
+                if r.random() < 0.5:
+                    steps += [{"op": "set_deadline", "s": d["s"], "d": tick + r.choice([1, 2])}]
+                steps += [{"op": "enable", "ts": d["s"]}]
+            elif x < 0.4:
+                steps += [{"op": "update", "ts": d["s"]}]
+        if other is not None and r.random() < 0.6:
+            steps.append({"op": "ping", "s": other["s"]} if other["kind"] == "ping" else {"op": "wr", "s": other["s"], "c": 0})
+        tick += r.choice([1, 1, 2])
+        steps.append({"op": "advance", "k": tick})
+        steps.append({"op": "dispatch"})
+    steps.append({"op": "advance", "k": tick + 3})
+    steps.append({"op": "dispatch"})
+    # a wait that must last: nothing is due for `far` ticks (cancelled armings must not cut it short)
+    if r.random() < 0.5:
+        steps.append({"op": "dispatch", "timeout": 3 * 2000})
+    # tokens of timers that dropped themselves are dead even when their slot has a new occupant
+    extra = []
+    for j in range(r.choice([0, 1, 2])):
+        sid2 = len(srcs) + 1
+        srcs.append({"s": sid2, "kind": r.choice(["ping", "timer"]), "held": 1})
+        if srcs[-1]["kind"] == "timer":
+            srcs[-1]["dl"] = tick + 50
+        extra.append(sid2)
+        steps.append({"op": "insert", "s": sid2})
+    if extra:
+        for _ in range(r.choice([1, 2, 3])):
+            steps.append({"op": r.choice(["enable", "disable", "update", "remove"]), "t": r.randrange(n)})
+        for e in extra:
+            if srcs[e - 1]["kind"] == "ping":
+                steps.append({"op": "ping", "s": e})
+        steps.append({"op": "dispatch"})
+    progs = {}
+    for d in srcs:
+        pl = []
+        for k in range(5):
+            ops = []
+            p = {"ops": ops}
+            if d["kind"] == "timer":
+                p["ret"] = r.choice(["drop", "drop", {"to": tick + k + r.choice([0, 1, 2])}, {"dur": r.choice([0, 1])}])
+            else:
+                if d["kind"] == "comp":
+                    ops.append({"op": "rd", "s": d["s"], "c": 0})
+                    p["ret"] = r.choice(["continue", "continue", "err"])
+                if r.random() < 0.5:
+                    v = r.choice(srcs[:n])
+                    ops += r.choice([[{"op": "set_deadline", "s": v["s"], "d": tick + 30}, {"op": "update", "ts": v["s"]}],
+                                     [{"op": "disable", "ts": v["s"]}, {"op": "enable", "ts": v["s"]}],
+                                     [{"op": "remove", "ts": v["s"]}], [{"op": "update", "ts": v["s"]}]])
+            pl.append(p)
+        progs["s%d" % d["s"]] = pl
+    return {"id": sid, "tick_us": 2000, "sources": srcs, "progs": progs, "steps": steps}
+
+
 def gen(seed, n, classes=None):
     classes = classes or CLASSES
     out = []
@@ -600,6 +694,8 @@ def gen(seed, n, classes=None):
             out.append(pat_replace(rnd, "p%d_%s_%d" % (seed, cls, i), cls))
         elif 0.4 <= x < 0.55 and cls in ("post", "mix", "ready", "fds", "disable", "faults", "timers"):
             out.append(pat_defer(rnd, "d%d_%s_%d" % (seed, cls, i)))
+        elif 0.55 <= x < 0.8 and cls == "timers":
+            out.append(pat_timers(rnd, "t%d_%s_%d" % (seed, cls, i)))
         else:
             out.append(G(rnd, cls).build("r%d_%s_%d" % (seed, cls, i)))
     return out
